@@ -118,6 +118,8 @@ package nsqd
 //  loop 0 [last-topic-complete] for each topic of the daemon, when its lock is released: a REGISTER(topic.name, "") was built if
 //                              it has no channel, else a REGISTER(channel.topicName, channel.name) for EVERY channel it has;
 //  loop 0/1 [queued]           every REGISTER built is appended to `commands` (counts agree), nothing else is.
+// r6MSaysEInvalid(b): the reply is the nine bytes E_INVALID
+//@ pred r6MSaysEInvalid(b []byte) := len(b) == 9 && b[0] == 69 && b[1] == 95 && b[2] == 73 && b[3] == 78 && b[4] == 86 && b[5] == 65 && b[6] == 76 && b[7] == 73 && b[8] == 68
 //@ func connectCallback$1(lp *lookupPeer)
 //@   props C16
 //@   requires lp != nil && lp.conn != nil && lp.state == stateConnected && n != nil
@@ -126,6 +128,12 @@ package nsqd
 //@   ensures[identify-first] r4CCmdCalls == old(r4CCmdCalls) + 1 ==> r4CCmdKind(r4CLastCmd) == 4 && r4CLastPeer == lp
 //@   ensures[registers-only-after-identify-ok] r4CBuiltCalls > old(r4CBuiltCalls) ==> r4CCmdCalls > old(r4CCmdCalls)
 //@   ensures[failure-leaves-closed] r4CCmdCalls > old(r4CCmdCalls) && r4CLastCmdErr != nil ==> lp.state != stateConnected
+//   (round 6, area M) r4C's surviving mutant: a failed step of the handshake - IDENTIFY cannot be built, the command fails, the reply cannot be decoded
+//   (`err` of the function body at the return) - leaves the peer CLOSED, so the next heartbeat starts the handshake over (C16 "bad replies ... converge")
+//@   ensures[failed-handshake-step-leaves-closed] final(err) != nil ==> lp.state == stateDisconnected
+//   ... and so does a reply that says E_INVALID (the lookupd refused the IDENTIFY): the peer is closed, nothing is registered on this connection
+//   (bytes.Equal has its exact meaning inside nsqd: r6M.spec; the bytes of []byte("E_INVALID") are the bytes of the literal)
+//@   ensures[rejected-identify-leaves-closed] final(err) == nil && r6MSaysEInvalid(final(resp)) ==> lp.state == stateDisconnected && r4CBuiltCalls == old(r4CBuiltCalls)
 //@   ensures[all-built-sent] lp.state == stateConnected ==> r4CCmdCalls == old(r4CCmdCalls) + 1 + (r4CBuiltCalls - old(r4CBuiltCalls)) && r4CLastCmdErr == nil
 //@   modifies lp.state, lp.Info, r4CCommandFrame
 //@   loop 0
@@ -190,12 +198,23 @@ package nsqd
 // (round 5) r5PeersAligned: the address book the connect pass consults (lookupAddrs) lists exactly the addresses of the current peers, position
 // by position - so an address is skipped by the connect pass iff a peer for it exists (a peer removed by reconfiguration can be added back).
 //@ pred r5PeersAligned(ps []*lookupPeer, as []string) := len(as) == len(ps) && (forall k int :: {ps[k]} {as[k]} 0 <= k && k < len(ps) ==> as[k] == ps[k].addr)
+// (round 6, area M) the reconfiguration branch. r6MConfigured(n, a): address a is in the configured list of lookupd TCP addresses (the options in force);
+// r6MKeptIn(ps, lp): peer lp is an element of the list ps.
+//@ pred r6MConfigured(n *NSQD, a string) := exists c int :: {curOpts(n).NSQLookupdTCPAddresses[c]} 0 <= c && c < len(curOpts(n).NSQLookupdTCPAddresses) && curOpts(n).NSQLookupdTCPAddresses[c] == a
+//@ pred r6MKeptIn(ps []*lookupPeer, lp *lookupPeer) := exists k int :: {ps[k]} 0 <= k && k < len(ps) && ps[k] == lp
+// r6MOwnPeers(ps): every peer of the list is an object this call allocated (for the frame: the loop writes only its own peers)
+//@ pred r6MOwnPeers(ps []*lookupPeer) := forall k int :: {ps[k]} 0 <= k && k < len(ps) ==> fresh(ps[k])
 //@ func (n *NSQD) lookupLoop()
 //@   props C16 C06 C14
 //@   requires n != nil
 //   (the daemon's control channels exist: made by nsqd.New before Main starts this loop)
 //@   requires[control-channels-exist] n.notifyChan != nil && n.optsNotificationChan != nil && n.exitChan != nil
+//   (round 6, area M) FRAME. The loop changes: its own peers (objects it allocated), the published peer list (one Store per connect pass: r4EAtomTick),
+//   the traffic / dial / close records, and - through connectCallback, which takes the read locks - the lock-guarded topic and channel maps are
+//   re-read (r4CCommandFrame). Nothing else of the daemon: no topic, channel, message, option or client is written by the lookup side.
+//@   modifies r4CCommandFrame, r4EAtomTick
 //@   loop 0
+//@     invariant[own-peers-and-lists] r6MOwnPeers(lookupPeers) && (cap(lookupPeers) == 0 || fresh(lookupPeers)) && (cap(lookupAddrs) == 0 || fresh(lookupAddrs))
 //@     invariant[peers-usable] r4CPeersOK(lookupPeers)
 //@     invariant[ticker] ticker != nil
 //@     invariant[address-book-matches-peers] r5PeersAligned(lookupPeers, lookupAddrs)
@@ -203,22 +222,61 @@ package nsqd
 //   reach the loop through channels too: EVERY iteration waits on all of them (none of the cases is ever switched off with a nil channel)
 //@     backedge[every-iteration-listens-for-notifications] listened(n.notifyChan)
 //@     backedge[every-iteration-listens-for-reconfiguration-and-exit] listened(n.optsNotificationChan) && listened(n.exitChan)
+//   (round 6, area M) the peer list PUBLISHED in n.lookupPeers (what lookupdHTTPAddrs / GetTopic read) is the loop's current list unless a connect
+//   pass is pending: so the reconfiguration branch, which replaces the list, MUST set `connect` (the next iteration then dials the new addresses
+//   and publishes the new list before it waits again)
+//@     invariant[address-book-apart-from-the-configuration] cap(lookupAddrs) == 0 || base(lookupAddrs) != base(curOpts(n).NSQLookupdTCPAddresses)
+//@     invariant[published-peer-list-is-current-unless-a-connect-pass-is-pending] !connect ==> dyntype(r4EAtomAt(&n.lookupPeers, r4EAtomTick)) == typetag("[]*lookupPeer") &&
+//@        unbox(r4EAtomAt(&n.lookupPeers, r4EAtomTick), "[]*lookupPeer") == lookupPeers
+//   ROUND COMPLETENESS is stated on the edges that LEAVE the heartbeat loop (loop 2) and the notification loop (loop 3): those edges are back edges
+//   of this main loop (`exit[every-peer-...-before-waiting-again]` below). A `backedge[]` clause of the main loop itself cannot name the entry
+//   state of an inner loop that does not dominate the back edge (engine: "atloop(): loop 2 does not dominate this point"; notes).
 //@   loop 1
+//@     invariant[own-peers-and-lists] r6MOwnPeers(lookupPeers) && (cap(lookupPeers) == 0 || fresh(lookupPeers)) && (cap(lookupAddrs) == 0 || fresh(lookupAddrs))
 //@     invariant[peers-usable] r4CPeersOK(lookupPeers)
 //@     invariant[ticker] ticker != nil
 //@     invariant[address-book-matches-peers] r5PeersAligned(lookupPeers, lookupAddrs)
+//   (round 6, area M) the connect pass examines EVERY configured address (no early exit) and leaves a peer for each of them
+//@     invariant[address-book-apart-from-the-configuration] cap(lookupAddrs) == 0 || base(lookupAddrs) != base(curOpts(n).NSQLookupdTCPAddresses)
+//@     invariant[a-peer-for-every-address-so-far] forall c int :: {curOpts(n).NSQLookupdTCPAddresses[c]} 0 <= c && c <= rangeindex && c < len(curOpts(n).NSQLookupdTCPAddresses) ==>
+//@        (exists j int :: {lookupAddrs[j]} 0 <= j && j < len(lookupAddrs) && lookupAddrs[j] == curOpts(n).NSQLookupdTCPAddresses[c])
+//@     exit[every-configured-address-examined] rangeindex + 1 >= len(curOpts(n).NSQLookupdTCPAddresses)
+//@     exit[a-peer-for-every-configured-address] forall c int :: {curOpts(n).NSQLookupdTCPAddresses[c]} 0 <= c && c < len(curOpts(n).NSQLookupdTCPAddresses) ==>
+//@        (exists j int :: {lookupAddrs[j]} 0 <= j && j < len(lookupAddrs) && lookupAddrs[j] == curOpts(n).NSQLookupdTCPAddresses[c])
 //@   loop 2
+//@     invariant[own-peers-and-lists] r6MOwnPeers(lookupPeers) && (cap(lookupPeers) == 0 || fresh(lookupPeers)) && (cap(lookupAddrs) == 0 || fresh(lookupAddrs))
 //@     invariant[peers-usable] r4CPeersOK(lookupPeers)
 //@     invariant[ticker] ticker != nil
 //@     invariant[one-ping-per-peer] r4CCmdCalls == atloop(r4CCmdCalls) + rangeindex + 1 && rangeindex < len(lookupPeers)
 //@     invariant[ping-to-each-in-order] rangeindex >= 0 ==> r4CLastPeer == lookupPeers[rangeindex] && r4CCmdKind(r4CLastCmd) == 1
+//   (round 6, area M) ROUND COMPLETENESS: the heartbeat loop is left (= the main loop returns to its select) only after the LAST peer: since
+//   this loop was entered exactly len(lookupPeers) commands were sent, the k-th a PING to peer k ([ping-to-each-in-order]) - an early `break` fails
+//@     exit[every-peer-pinged-before-waiting-again] rangeindex + 1 >= len(lookupPeers) && r4CCmdCalls == atloop(r4CCmdCalls) + len(lookupPeers)
 //@   loop 3
+//@     invariant[own-peers-and-lists] r6MOwnPeers(lookupPeers) && (cap(lookupPeers) == 0 || fresh(lookupPeers)) && (cap(lookupAddrs) == 0 || fresh(lookupAddrs))
 //@     invariant[peers-usable] r4CPeersOK(lookupPeers)
 //@     invariant[ticker] ticker != nil
 //@     invariant[one-command-per-peer] r4CCmdCalls == atloop(r4CCmdCalls) + rangeindex + 1 && rangeindex < len(lookupPeers)
 //@     invariant[same-command-to-each-in-order] rangeindex >= 0 ==> r4CLastPeer == lookupPeers[rangeindex] && r4CLastCmd == cmd
 //@     invariant[command-matches-object] r4CNotifyCmd(cmd, val)
+//   (round 6, area M) ROUND COMPLETENESS: the notification loop is left only after the LAST peer got the command of THIS notification
+//@     exit[every-peer-told-before-waiting-again] rangeindex + 1 >= len(lookupPeers) && r4CCmdCalls == atloop(r4CCmdCalls) + len(lookupPeers) &&
+//@        (len(lookupPeers) > 0 ==> r4CLastCmd == cmd && r4CLastPeer == lookupPeers[len(lookupPeers) - 1])
 //@   loop 4
+//@     invariant[own-peers-and-lists] r6MOwnPeers(lookupPeers) && (cap(lookupPeers) == 0 || fresh(lookupPeers)) && (cap(lookupAddrs) == 0 || fresh(lookupAddrs))
 //@     invariant[peers-usable] r4CPeersOK(lookupPeers) && r4CPeersOK(tmpPeers)
 //@     invariant[ticker] ticker != nil
 //@     invariant[kept-address-book-matches-kept-peers] r5PeersAligned(tmpPeers, tmpAddrs)
+//   (round 6, area M) C16 "runtime reconfiguration of the lookupd list": a peer is KEPT iff its address is still configured; a removed peer is closed;
+//   nothing else is closed (one Close per removed peer); the whole list is examined (no early exit). Stated on every edge that leaves the loop.
+//@     invariant[own-list] ((len(tmpPeers) == 0 && cap(tmpPeers) == 0) || fresh(tmpPeers)) && r6MOwnPeers(tmpPeers)
+//@     invariant[own-address-list] (len(tmpAddrs) == 0 && cap(tmpAddrs) == 0) || fresh(tmpAddrs)
+//@     invariant[address-list-apart-from-the-configuration] cap(tmpAddrs) == 0 || base(tmpAddrs) != base(curOpts(n).NSQLookupdTCPAddresses)
+//@     invariant[kept-are-still-configured] forall k int :: {tmpPeers[k]} 0 <= k && k < len(tmpPeers) ==> r6MConfigured(n, tmpPeers[k].addr)
+//@     invariant[still-configured-are-kept] forall i int :: {lookupPeers[i]} 0 <= i && i <= rangeindex && i < len(lookupPeers) && r6MConfigured(n, lookupPeers[i].addr) ==> r6MKeptIn(tmpPeers, lookupPeers[i])
+//@     invariant[removed-are-closed] forall i int :: {lookupPeers[i]} 0 <= i && i <= rangeindex && i < len(lookupPeers) && !r6MConfigured(n, lookupPeers[i].addr) ==> setin(r4CClosedSet, lookupPeers[i])
+//@     invariant[one-close-per-removed-peer] r4CCloses == atloop(r4CCloses) + rangeindex + 1 - len(tmpPeers) && rangeindex < len(lookupPeers)
+//@     exit[whole-list-examined] rangeindex + 1 >= len(lookupPeers)
+//@     exit[kept-iff-still-configured] forall i int :: {lookupPeers[i]} 0 <= i && i < len(lookupPeers) ==> (r6MConfigured(n, lookupPeers[i].addr) <==> r6MKeptIn(tmpPeers, lookupPeers[i]))
+//@     exit[removed-peers-are-closed] forall i int :: {lookupPeers[i]} 0 <= i && i < len(lookupPeers) && !r6MConfigured(n, lookupPeers[i].addr) ==> setin(r4CClosedSet, lookupPeers[i])
+//@     exit[only-removed-peers-are-closed] r4CCloses == atloop(r4CCloses) + len(lookupPeers) - len(tmpPeers)
